@@ -291,9 +291,9 @@ func (m *Model) Apply(op Op, t int64, actual string) Result {
 	m.cur = string(op.Typ) + "|" + op.Keys[0]
 	var outs []out
 	for _, c := range k.cands {
-		if op.Name == "hclear" && !m.LD && c.present && c.expSec != 0 && t < c.xhi {
-			k.hclearRisk = append(k.hclearRisk, c.expSec)
-		}
+		// (the finding "hclear-local-clock-replay-diverges" is repaired in the
+		// repository - fix: commit 0a165e4 - so HCLEAR gets no special treatment
+		// any more: a replay that diverges is an ordinary violation again)
 		outs = append(outs, m.step(c, op, t, true)...)
 	}
 	var keep []out
